@@ -870,7 +870,7 @@ fn materialise(v: &Value) -> (String, Vec<u8>) {
             .collect();
         let mut bytes = apply_edits(&s.bytes, &edits);
         if v.get("rp").and_then(Value::as_bool) == Some(true) {
-            bytes = repair_table(&bytes).unwrap_or(bytes);
+            bytes = repair(&bytes).unwrap_or(bytes);
         }
         (s.entry.to_string(), bytes)
     })
@@ -950,6 +950,139 @@ fn repair_table(b: &[u8]) -> Option<Vec<u8>> {
     out.extend_from_slice(xr.to_string().as_bytes());
     out.extend_from_slice(&tail);
     Some(out)
+}
+
+/// The same for a file that ends with an UNFILTERED cross-reference stream with direct /W, /Length
+/// (and /Index or /Size): type-1 rows are re-pointed at the moved object headers and `startxref` at the
+/// moved cross-reference stream object. None when the file is not of that form.
+fn repair_xref_stream(b: &[u8]) -> Option<Vec<u8>> {
+    fn rfind(h: &[u8], n: &[u8]) -> Option<usize> {
+        if h.len() < n.len() {
+            return None;
+        }
+        (0..=h.len() - n.len()).rev().find(|i| &h[*i..*i + n.len()] == n)
+    }
+    fn find(h: &[u8], n: &[u8], from: usize) -> Option<usize> {
+        if from >= h.len() {
+            return None;
+        }
+        h[from..].windows(n.len()).position(|w| w == n).map(|k| from + k)
+    }
+    fn ints_after(d: &[u8], key: &[u8], max: usize) -> Option<Vec<u64>> {
+        let k = find(d, key, 0)? + key.len();
+        let mut p = k;
+        let mut out = vec![];
+        while p < d.len() && out.len() < max {
+            let c = d[p];
+            if c == b' ' || c == b'[' || c == b'\n' || c == b'\r' {
+                p += 1;
+            } else if c.is_ascii_digit() {
+                let s0 = p;
+                while p < d.len() && d[p].is_ascii_digit() && p - s0 < 12 {
+                    p += 1;
+                }
+                out.push(std::str::from_utf8(&d[s0..p]).ok()?.parse().ok()?);
+            } else {
+                break;
+            }
+        }
+        Some(out)
+    }
+    let sx = rfind(b, b"startxref")?;
+    // the cross-reference stream object: the last "/XRef" before startxref, its "obj" header before that
+    let ty = rfind(&b[..sx], b"/XRef")?;
+    let ob = rfind(&b[..ty], b" obj")?;
+    let mut hdr = ob;
+    // back over "<num> <gen>"
+    let mut spaces = 0;
+    while hdr > 0 {
+        let c = b[hdr - 1];
+        if c.is_ascii_digit() {
+            hdr -= 1;
+        } else if c == b' ' && spaces == 0 {
+            spaces = 1;
+            hdr -= 1;
+        } else {
+            break;
+        }
+    }
+    let st = find(b, b"stream", ty)?;
+    if st > sx {
+        return None;
+    }
+    let dict = &b[ob..st];
+    if find(dict, b"/Filter", 0).is_some() {
+        return None;
+    }
+    let w = ints_after(dict, b"/W", 3)?;
+    if w.len() != 3 || w.iter().any(|x| *x > 8) || w[1] == 0 {
+        return None;
+    }
+    let len = *ints_after(dict, b"/Length", 1)?.first()? as usize;
+    let index: Vec<u64> = match find(dict, b"/Index", 0) {
+        Some(_) => ints_after(dict, b"/Index", 64)?,
+        None => vec![0, *ints_after(dict, b"/Size", 1)?.first()?],
+    };
+    let mut data = st + 6;
+    if b.get(data) == Some(&b'\r') {
+        data += 1;
+    }
+    if b.get(data) == Some(&b'\n') {
+        data += 1;
+    }
+    let row = (w[0] + w[1] + w[2]) as usize;
+    if data + len > b.len() || row == 0 {
+        return None;
+    }
+    let mut out = b.to_vec();
+    let mut r = 0usize;
+    for pair in index.chunks(2) {
+        if pair.len() < 2 {
+            break;
+        }
+        for i in 0..pair[1].min(100_000) {
+            let at = data + r * row;
+            if at + row > data + len {
+                break;
+            }
+            let ty1 = if w[0] == 0 { 1 } else { b[at..at + w[0] as usize].iter().fold(0u64, |a, c| a * 256 + *c as u64) };
+            if ty1 == 1 {
+                let gen = b[at + (w[0] + w[1]) as usize..at + row].iter().fold(0u64, |a, c| a * 256 + *c as u64);
+                let pat = format!("{} {} obj", pair[0] + i, gen).into_bytes();
+                let mut from = 0;
+                while let Some(k) = find(&b[..sx], &pat, from) {
+                    if k == 0 || b[k - 1] == b'\n' || b[k - 1] == b'\r' || b[k - 1] == b' ' {
+                        let wid = w[1] as usize;
+                        if wid >= 8 || (k as u64) < (1u64 << (8 * wid)) {
+                            let be = (k as u64).to_be_bytes();
+                            out[at + w[0] as usize..at + (w[0] + w[1]) as usize].copy_from_slice(&be[8 - wid..]);
+                        }
+                        break;
+                    }
+                    from = k + 1;
+                }
+            }
+            r += 1;
+        }
+    }
+    let mut d0 = sx + 9;
+    while d0 < b.len() && (b[d0] == b' ' || b[d0] == b'\r' || b[d0] == b'\n') {
+        d0 += 1;
+    }
+    let mut d1 = d0;
+    while d1 < b.len() && b[d1].is_ascii_digit() {
+        d1 += 1;
+    }
+    let tail = out[d1..].to_vec();
+    out.truncate(d0);
+    out.extend_from_slice(hdr.to_string().as_bytes());
+    out.extend_from_slice(&tail);
+    Some(out)
+}
+
+/// table form first, cross-reference stream form otherwise
+fn repair(b: &[u8]) -> Option<Vec<u8>> {
+    repair_table(b).or_else(|| repair_xref_stream(b))
 }
 
 fn edits_json(e: &[Edit]) -> Value {
@@ -1047,7 +1180,7 @@ fn main() {
     run.rule(
         "(a) every 1-edit mutant of the byte-level seeds (each position x {replace by 16 sharp bytes, insert 16 sharp bytes, flip each bit, delete, truncate}) \
          and every token-level edit of all seeds (delete / duplicate token, replace by another kind or by deep nesting, every integer by 16 extremes, by offsets, \
-         by every other integer of the file, block splices); every mutant of a file with a classic cross-reference table additionally in a structure-aware form whose table offsets and startxref are re-pointed at the moved objects; 2-edit mutants at token sites of small seeds (thorough); (b) parametric adversarial families \
+         by every other integer of the file, block splices); every mutant of a file with a classic cross-reference table or an unfiltered cross-reference stream additionally in a structure-aware form whose offsets and startxref are re-pointed at the moved objects; 2-edit mutants at token sites of small seeds (thorough); (b) parametric adversarial families \
          (nesting depth, reference and Prev cycles, xref-stream W/Index/Size, object-stream N/First, predictor parameters, all PNG row tags, ASCII85 groups, LZW \
          code sequences, inline-image geometry, CMap grammar extremes, BOM-alphabet text strings, Length/startxref extremes); nine entry points in isolated workers; \
          non-trivial = mutant differs from its seed, is distinct by content hash, and the entry point got past the trivial early error",
@@ -1117,7 +1250,7 @@ fn main() {
             let bytes = apply_edits(&s.bytes, &e);
             push(json!({"s": si, "ed": edits_json(&e)}), s.entry, &bytes, &mut cases, &mut meta);
             if s.entry == "load" || s.entry == "incload" {
-                if let Some(fixed) = repair_table(&bytes) {
+                if let Some(fixed) = repair(&bytes) {
                     if fixed != bytes {
                         repaired += 1;
                         push(json!({"s": si, "ed": edits_json(&e), "rp": true}), s.entry, &fixed, &mut cases, &mut meta);
